@@ -1,7 +1,8 @@
 Require Import ExtrOcamlBasic.
-From Eupsv Require Import Base.Base Model.Graph Model.Resolve Generated.Config Model.DepWalk Model.DepWalkText Model.BuildOrder.
+From Eupsv Require Import Base.Base Model.Graph Model.Resolve Generated.Config Model.DepWalk Model.DepWalkText Model.BuildOrder Model.UsesSeq.
 Extraction "model.ml" keep_types dependent_products dependent_products_pinned dependent_products_byname_pinned
   topo_graph topo_graph_byname_pinned scc comp_layers
   sort_layers node_cmp node_cmp_pinned partition_ok uses_index users users_pinned walk_top check_cycles
   create_dependencies install_manifest cli_lines
+  world_after db_after current_of run_session
   list_text graph_text edges_text lookup_text hyps_text site_config default_config.
